@@ -255,8 +255,11 @@ let run_arena ops =
           let (n, v, e) = (int_of_nat cpn, int_of_nat cpv, int_of_nat cpe) in
           take n a1.a_nodes = take n a0.a_nodes && take v a1.a_values = take v a0.a_values
           && take e a1.a_entries = take e a0.a_entries in
+    (* the side condition of the arena rollback theorems: at a checkpoint the root carries the number of
+       the current generation *)
+    let tag_ok = match o with ONewGen -> root_tag_ok a0 | _ -> true in
     show_out x ^ "#" ^ String.concat "," (List.map (fun n -> string_of_int (int_of_nat n)) (sizes a1))
-    ^ (if cow_ok then "" else "!COW")) ops
+    ^ (if cow_ok then "" else "!COW") ^ (if tag_ok then "" else "!TAG")) ops
 
 let () =
   let use_spec = Array.length Sys.argv > 1 && Sys.argv.(1) = "spec" in
